@@ -244,7 +244,8 @@ def check_C12(res, ctx):
            "value was written for that key, no panic; the byte-exact model must predict the same outcome"
 
 
-def crash_family(res, ctx, tag, kinds, n_quick, n_thorough, io_mix=(0, 0, 0, 0, 0, 0, 0, 1), cuts_quick="few", cuts_thorough="all", level2=False):
+def crash_family(res, ctx, tag, kinds, n_quick, n_thorough, io_mix=(0, 0, 0, 0, 0, 0, 0, 1), cuts_quick="few", cuts_thorough="all", level2=False,
+                 postmerge=False):
     from . import crashcheck
     n = n_quick if ctx.quick else n_thorough
     items = []
@@ -264,7 +265,7 @@ def crash_family(res, ctx, tag, kinds, n_quick, n_thorough, io_mix=(0, 0, 0, 0, 
     def job(it):
         i, kind, io, ops, cfg = it
         recs, err, rc = crashcheck.run_crash(ctx, ops, mode="io", cuts=cuts_quick if ctx.quick else cuts_thorough,
-                                             dumpfiles=True, level2=level2, timeout=1800)
+                                             dumpfiles=True, level2=level2, timeout=1800, postmerge=postmerge)
         return recs, err, rc
     results = core.parallel_map(job, items, workers=8)
     for (i, kind, io, ops, cfg), (recs, err, rc) in zip(items, results):
@@ -474,7 +475,7 @@ def check_C06(res, ctx):
 
 def check_C07(res, ctx):
     crash_family(res, ctx, "C07", ["merge-multi", "merge", "merge-multi"], 6, 120, io_mix=(0, 0, 0, 0, 0, 0, 0, 0, 0, 0, 0, 1), cuts_quick="none", cuts_thorough="none",
-                 level2=not ctx.quick)
+                 level2=not ctx.quick, postmerge=True)
     return "every I/O event and every crash point (merge phases, each rename / remove / hint move / marker removal / directory removal of the " \
            "adoption step) of histories with Merge and restarts is a crash image; each image is reopened once and twice and must show exactly the " \
            "mapping acknowledged before the crash; the model recovers the same image bytes and must agree"
@@ -848,10 +849,17 @@ def check_C18(res, ctx):
         if i % 2 == 1:
             # an earlier merge of the same directory has already been adopted (its hint file sits in the data directory)
             ops += ["merge", "close", engine.open_line("d", cfg)]
-            for _ in range(12):
-                g.ops = []
-                g.step()
-                ops += [o for o in g.ops if o.split()[0] not in ("merge", "close", "open", "dump", "stat", "files")]
+            if i % 4 == 3:
+                # everything is deleted before the second merge: it rewrites no record at all
+                ops += ["del " + k.hex() for k in g.keys]
+                if rng.random() < 0.5:
+                    ops.append("put %s x01" % g.keys[0].hex())
+                res.count("second_merge_rewrites_nothing")
+            else:
+                for _ in range(12):
+                    g.ops = []
+                    g.step()
+                    ops += [o for o in g.ops if o.split()[0] not in ("merge", "close", "open", "dump", "stat", "files")]
             res.count("second_merge_of_directory")
         ops += ["merge", "dump", "files d-merge", "close"]
         base = ctx.scratch.fresh()
